@@ -47,11 +47,12 @@ EvScan == /\ Is("scan") /\ Adv
           /\ scans # <<>> /\ scans[Len(scans)].vol = Rec[l].vol
           /\ scans[Len(scans)].sweeps = [g \in DOMAIN Rec[l].sweeps |-> [el |-> Rec[l].sweeps[g].el, ids |-> Rec[l].sweeps[g].ids]]
           /\ UNCHANGED allv
+EvStat == Is("stat") /\ Adv /\ UNCHANGED allv
 EvReturn == /\ Is("return") /\ result # "running" /\ (Rec[l].ok <=> result = "ok") /\ Adv /\ UNCHANGED allv
 Silent == (PLoopTop \/ PNext \/ (PSearch /\ ~Is("probe"))) /\ UNCHANGED <<l, svars>>
 SilentSendFail == cons = "dropped" /\ SFailedSend /\ UNCHANGED l
 
-TNext == EvProbe \/ EvUpload \/ EvStop \/ EvDrop \/ EvList \/ EvGet \/ EvDeliver \/ EvScan \/ EvReturn \/ Silent \/ SilentSendFail
+TNext == EvStat \/ EvProbe \/ EvUpload \/ EvStop \/ EvDrop \/ EvList \/ EvGet \/ EvDeliver \/ EvScan \/ EvReturn \/ Silent \/ SilentSendFail
 TSpec == TInit /\ [][TNext]_tvars
 Track == IF l > TLCGet(7) THEN TLCSet(7, l) ELSE TRUE
 Accept == IF TLCGet(7) = Len(Rec) + 1 THEN PrintT(<<"TRACE-CONSUMED", Len(Rec)>>)
